@@ -55,8 +55,19 @@ type gitscannerResult struct {
 func scanUnpushed(cb GitScannerFoundPointer, remote string) error {
 	logArgs := []string{
 		"-m",                           // show what a merge commit changed against each parent
-		"HEAD", "--branches", "--tags", // include all locally referenced commits, and a detached HEAD
-		"--not"} // but exclude everything that comes after
+		"HEAD", "--branches", "--tags"} // include all locally referenced commits, and a detached HEAD
+
+	// The other worktrees share this repository's objects: commits that
+	// only the detached HEAD of one of them reaches are unpushed too.
+	if commonDir, err := git.GitCommonDir(); err == nil {
+		if worktrees, err := git.GetAllWorktrees(commonDir); err == nil {
+			for _, worktree := range worktrees {
+				logArgs = append(logArgs, worktree.Ref.Sha)
+			}
+		}
+	}
+
+	logArgs = append(logArgs, "--not") // but exclude everything that comes after
 
 	if len(remote) == 0 {
 		logArgs = append(logArgs, "--remotes")
